@@ -15,7 +15,22 @@ lifts it to every declaration kind of `Idl.g4`, to nested namespaces and to whol
   function types as parameter/field/return types are not covered (the grammar is ambiguous there:
   `() throws () -> r` has two readings and the printed form of one of them parses as the other).
 
-The main theorems are collected at the end of the file.
+Main theorems (section "Main theorems" at the end of the file):
+
+print, then parse (every shape, any member count / nesting depth, any positions, any `rest`):
+* `decl_roundtrip`            all six declaration kinds at once; instances `enum_roundtrip`, `flags_roundtrip`,
+                              `record_roundtrip`, `interface_roundtrip`, `function_roundtrip`, `errorDomain_roundtrip`
+                              (side conditions: `fuel ≥` number of printed tokens; `DeclFollowOK`, i.e. a record
+                              without `deriving` is not followed by the token `deriving`)
+* `method_roundtrip`, `property_roundtrip`, `errCode_roundtrip`   members on their own
+* `content_roundtrip`         declarations and (nested) `namespace a.b { … }` blocks
+* `file_roundtrip`, `text_roundtrip`   `parseFile` / `parseText` on `@import`/`@extern` lines + contents; no side condition
+* `printFile_injective`       equal printings ⇒ equal erased shapes
+parse, then print (every input, every fuel):
+* `enum_sound`, `flags_sound`, `record_sound`   the consumed tokens are exactly the printing of the result's shape
+* `enum_parse_iff_print`, `flags_parse_iff_print`   both directions as an equivalence
+Non-vacuity: `exIface_lex`, `exSmall_lex` and the examples after them run the real `lex` (kernel `decide`);
+the `#guard`s repeat this on a larger file (tests, evaluated by the compiler).
 -/
 set_option linter.unusedSimpArgs false
 
@@ -2159,6 +2174,253 @@ theorem content_decl_inv (fuel : Nat) (ts : List Token) (d : Decl) (rest : List 
         obtain ⟨rfl, rfl⟩ := h
         rfl
 
+/-! ### soundness for records whose field types are data types -/
+
+theorem targets_sound (ts : List Token) :
+    ∃ tg, ts = tg ++ (targets ts).2 ∧ tg.map (·.tk) = printTargets (targets ts).1 := by
+  induction ts with
+  | nil => exact ⟨[], by simp [targets], by simp [targets, printTargets]⟩
+  | cons t ts ih =>
+    obtain ⟨cs, h1, h2⟩ := ih
+    cases ht : t.tk with
+    | target s =>
+      refine ⟨t :: cs, ?_, ?_⟩
+      · simp only [targets, ht, List.cons_append]; rw [← h1]
+      · simp only [targets, ht, List.map_cons, printTargets] at h2 ⊢; rw [h2]
+    | kw s => exact ⟨[], by simp [targets, ht], by simp [targets, ht, printTargets]⟩
+    | filepath s => exact ⟨[], by simp [targets, ht], by simp [targets, ht, printTargets]⟩
+    | comment s => exact ⟨[], by simp [targets, ht], by simp [targets, ht, printTargets]⟩
+    | id s => exact ⟨[], by simp [targets, ht], by simp [targets, ht, printTargets]⟩
+    | nsid s => exact ⟨[], by simp [targets, ht], by simp [targets, ht, printTargets]⟩
+
+/-- a candidate of `typeRefL` that is a data type is a printing of its shape -/
+theorem typeRefL_data_sound (fuel : Nat) (ts : List Token) (t : TypeRef) (r : List Token)
+    (hm : (t, r) ∈ typeRefL fuel ts) (hd : (shapeOf t).isSome = true) :
+    ∃ pre s, ts = pre ++ r ∧ pre.map (·.tk) = printTy s ∧ shapeOf t = some s.erase := by
+  cases fuel with
+  | zero => simp [typeRefL] at hm
+  | succ g =>
+    rw [typeRefL.eq_2] at hm
+    split at hm
+    · exfalso
+      simp only [List.mem_map] at hm
+      obtain ⟨⟨f, r'⟩, _, he⟩ := hm
+      simp only [Prod.mk.injEq] at he
+      obtain ⟨rfl, rfl⟩ := he
+      simp [shapeOf] at hd
+    · cases hdt : dataType (g+1) ts with
+      | none => simp [hdt] at hm
+      | some x =>
+        simp only [hdt, List.mem_singleton] at hm
+        subst hm
+        exact dataType_sound (g+1) ts t r hdt
+
+theorem firstThat_inv {α β : Type} {l : List (α × List Token)} {next : α → List Token → Option β} {b : β}
+    (h : firstThat l next = some b) : ∃ a r, (a, r) ∈ l ∧ next a r = some b := by
+  unfold firstThat at h
+  obtain ⟨x, hx, hb⟩ := List.exists_of_findSome?_eq_some h
+  exact ⟨x.1, x.2, hx, hb⟩
+
+theorem field_sound (fuel : Nat) (ts0 : List Token) (f : Field) (r : List Token)
+    (h : field fuel ts0 = some (f, r)) (hd : f.shape?.isSome = true) :
+    ∃ q s, ts0 = q ++ r ∧ q.map (·.tk) = printField s ∧ f.shape? = some s.erase := by
+  obtain ⟨cs, h1, h2⟩ := comments_sound ts0
+  unfold field at h
+  generalize comments ts0 = x at h h1 h2
+  obtain ⟨c, ts⟩ := x
+  simp only [Option.bind_eq_bind, Option.pure_def] at h h1 h2
+  cases hi : ident ts with
+  | none => simp [hi] at h
+  | some y =>
+    obtain ⟨n, ts1⟩ := y
+    obtain ⟨nt, rfl, hn⟩ := ident_inv hi
+    simp only [hi, Option.bind_some] at h
+    cases hk : kw? ":" ts1 with
+    | none => simp [hk] at h
+    | some ts2 =>
+      obtain ⟨colon, rfl, hcolon⟩ := kw?_inv hk
+      simp only [hk, Option.bind_some] at h
+      obtain ⟨t, r', hmem, hnext⟩ := firstThat_inv h
+      cases hs : kw? ";" r' with
+      | none => simp [hs] at hnext
+      | some ts3 =>
+        obtain ⟨semi, rfl, hsemi⟩ := kw?_inv hs
+        simp only [hs, Option.bind_some, Option.some.injEq, Prod.mk.injEq] at hnext
+        obtain ⟨rfl, rfl⟩ := hnext
+        have hd' : (shapeOf t).isSome = true := by
+          simp only [Field.shape?, Option.isSome_map] at hd; exact hd
+        obtain ⟨pre, s, rfl, hpre, hst⟩ := typeRefL_data_sound fuel ts2 t _ hmem hd'
+        refine ⟨cs ++ nt :: colon :: (pre ++ [semi]), ⟨n, s, c⟩, ?_, ?_, ?_⟩
+        · rw [h1]; simp
+        · simp [printField, h2, hn, hcolon, hpre, hsemi]
+        · simp [Field.shape?, hst, FieldShape.erase]
+
+/-- version of `many_sound` for elements whose printed shape is not a function of the parsed
+    element (`dotted` is not recorded in the AST) and exists only for some elements -/
+theorem many_sound_rel {α σ β : Type} (fuel : Nat) (stop : List Token → Bool) (p : P α)
+    (pr : σ → List Tk) (f : α → Option β) (g : σ → β)
+    (hp : ∀ ts a r, p ts = some (a, r) → (f a).isSome = true →
+      ∃ q s, ts = q ++ r ∧ q.map (·.tk) = pr s ∧ f a = some (g s))
+    (n : Nat) (ts : List Token) (as : List α) (rest : List Token)
+    (h : many fuel stop p n ts = some (as, rest)) (hQ : ∀ a ∈ as, (f a).isSome = true) :
+    ∃ (pre : List Token) (ss : List σ), ts = pre ++ rest ∧ pre.map (·.tk) = ss.flatMap pr ∧ mapOpt f as = some (ss.map g) := by
+  induction n generalizing ts as with
+  | zero => simp [many] at h
+  | succ n ih =>
+    simp only [many] at h
+    split at h
+    · simp at h; obtain ⟨rfl, rfl⟩ := h; exact ⟨[], [], by simp, by simp, rfl⟩
+    · cases h1 : p ts with
+      | none => simp [h1] at h
+      | some x =>
+        obtain ⟨a, r⟩ := x
+        simp only [h1, Option.bind_eq_bind, Option.bind_some] at h
+        cases h2 : many fuel stop p n r with
+        | none => simp [h2] at h
+        | some y =>
+          obtain ⟨as', r'⟩ := y
+          simp [h2] at h
+          obtain ⟨rfl, rfl⟩ := h
+          obtain ⟨q, s, rfl, hq, hR⟩ := hp _ _ _ h1 (hQ a List.mem_cons_self)
+          obtain ⟨pre, ss, rfl, hpre, hF⟩ := ih _ _ h2 (fun a ha => hQ a (List.mem_cons_of_mem _ ha))
+          exact ⟨q ++ pre, s :: ss, by simp, by simp [hq, hpre], by simp [mapOpt, hR, hF]⟩
+
+theorem mapOpt_isSome_of {α β : Type} {f : α → Option β} {l : List α} {r : List β} (h : mapOpt f l = some r) :
+    ∀ a ∈ l, (f a).isSome = true := by
+  induction l generalizing r with
+  | nil => simp
+  | cons a as ih =>
+    obtain ⟨x, xs, rfl, hx, hxs⟩ := mapOpt_cons_inv h
+    intro b hb
+    rcases List.mem_cons.mp hb with rfl | hb
+    · simp [hx]
+    · exact ih hxs b hb
+
+theorem derivingList_sound (n : Nat) (ts : List Token) (l : List (String × Pos)) (r : List Token)
+    (h : derivingList n ts = some (l, r)) :
+    ∃ q, ts = q ++ r ∧ q.map (·.tk) = printIds (l.map (·.1)) ∧ l ≠ [] := by
+  induction n generalizing ts l with
+  | zero => simp [derivingList] at h
+  | succ k ih =>
+    simp only [derivingList, Option.bind_eq_bind] at h
+    cases hi : ident ts with
+    | none => simp [hi] at h
+    | some y =>
+      obtain ⟨d, ts1⟩ := y
+      obtain ⟨dt, rfl, hd⟩ := ident_inv hi
+      simp only [hi, Option.bind_some] at h
+      split at h
+      · next hc =>
+        obtain ⟨comma, hce, hck⟩ := peekKw_inv hc
+        cases hr : derivingList k ts1.tail with
+        | none => simp [hr] at h
+        | some z =>
+          obtain ⟨ds, r'⟩ := z
+          simp only [hr, Option.bind_some, Option.pure_def, Option.some.injEq, Prod.mk.injEq] at h
+          obtain ⟨rfl, rfl⟩ := h
+          obtain ⟨q, hq, hqk, hne⟩ := ih _ _ hr
+          refine ⟨dt :: comma :: q, by rw [hce, hq]; simp, ?_, by simp⟩
+          cases ds with
+          | nil => exact absurd rfl hne
+          | cons e es => simp [printIds, hd, hck, hqk]
+      · simp only [Option.pure_def, Option.some.injEq, Prod.mk.injEq] at h
+        obtain ⟨rfl, rfl⟩ := h
+        exact ⟨[dt], by simp, by simp [printIds, hd], by simp⟩
+
+theorem typeDecl_record_inv (fuel : Nat) (c' : List String) (ts0 ts : List Token) (n : String) (c : List String)
+    (fl : List String) (flp : Pos) (fs : List Field) (dv : Option (List (String × Pos))) (p : Pos) (rest : List Token)
+    (h : typeDecl fuel c' ts0 ts = some (.record n c fl flp fs dv p, rest)) :
+    c = c' ∧ ∃ nt eq k tg lb body rb dvt, ts = nt :: eq :: k :: (tg ++ lb :: body) ∧ nt.tk = .id n ∧
+      eq.tk = .kw "=" ∧ k.tk = .kw "record" ∧ tg.map (·.tk) = printTargets fl ∧ lb.tk = .kw "{" ∧ rb.tk = .kw "}" ∧
+      many fuel (peekKw "}") (field fuel) fuel body = some (fs, rb :: (dvt ++ rest)) ∧
+      dvt.map (·.tk) = printDeriving (dv.map (fun l => l.map (·.1))) := by
+  unfold typeDecl at h
+  simp only [Option.bind_eq_bind] at h
+  cases hi : ident ts with
+  | none => simp [hi] at h
+  | some y =>
+    obtain ⟨n', ts1⟩ := y
+    obtain ⟨nt, rfl, hn⟩ := ident_inv hi
+    simp only [hi, Option.bind_some] at h
+    cases hk : kw? "=" ts1 with
+    | none => simp [hk] at h
+    | some ts2 =>
+      obtain ⟨eq, rfl, heq⟩ := kw?_inv hk
+      simp only [hk, Option.bind_some] at h
+      split at h
+      · exfalso; simp [Option.bind_eq_some_iff] at h
+      split at h
+      · exfalso; simp [Option.bind_eq_some_iff] at h
+      split at h
+      · next hrec =>
+        obtain ⟨k, hk2, hkk⟩ := peekKw_inv hrec
+        obtain ⟨tg, htg1, htg2⟩ := targets_sound ts2.tail
+        generalize targets ts2.tail = x at h htg1 htg2
+        obtain ⟨fl', ts3⟩ := x
+        simp only at h htg1 htg2
+        cases hl : kw? "{" ts3 with
+        | none => simp [hl] at h
+        | some ts4 =>
+          obtain ⟨lb, rfl, hlb⟩ := kw?_inv hl
+          simp only [hl, Option.bind_some] at h
+          cases hm : many fuel (peekKw "}") (field fuel) fuel ts4 with
+          | none => simp [hm] at h
+          | some z =>
+            obtain ⟨fs', ts5⟩ := z
+            simp only [hm, Option.bind_some] at h
+            cases hr : kw? "}" ts5 with
+            | none => simp [hr] at h
+            | some ts6 =>
+              obtain ⟨rb, rfl, hrb⟩ := kw?_inv hr
+              simp only [hr, Option.bind_some] at h
+              have hts : nt :: eq :: ts2 = nt :: eq :: k :: (tg ++ lb :: ts4) := by rw [hk2, htg1]
+              split at h
+              · next hdv =>
+                obtain ⟨dk, hdk, hdkk⟩ := peekKw_inv hdv
+                cases hlp : kw? "(" ts6.tail with
+                | none => simp [hlp] at h
+                | some ts7 =>
+                  obtain ⟨lp, hlpe, hlpk⟩ := kw?_inv hlp
+                  simp only [hlp, Option.bind_some] at h
+                  split at h
+                  · simp only [Option.pure_def, Option.bind_some] at h
+                    cases hrp : kw? ")" ts7 with
+                    | none => simp [hrp] at h
+                    | some ts8 =>
+                      obtain ⟨rp, rfl, hrpk⟩ := kw?_inv hrp
+                      simp only [hrp, Option.bind_some, Option.some.injEq, Prod.mk.injEq, Decl.record.injEq] at h
+                      obtain ⟨⟨rfl, rfl, rfl, -, rfl, rfl, -⟩, rfl⟩ := h
+                      refine ⟨rfl, nt, eq, k, tg, lb, ts4, rb, [dk, lp, rp], hts, hn, heq, hkk, htg2, hlb, hrb, ?_, ?_⟩
+                      · rw [hm, hdk, hlpe]; simp
+                      · simp [printDeriving, printIds, hdkk, hlpk, hrpk]
+                  · cases hdl : derivingList fuel ts7 with
+                    | none => simp [hdl] at h
+                    | some w =>
+                      obtain ⟨ds, ts8⟩ := w
+                      simp only [hdl, Option.bind_some] at h
+                      cases hrp : kw? ")" ts8 with
+                      | none => simp [hrp] at h
+                      | some ts9 =>
+                        obtain ⟨rp, rfl, hrpk⟩ := kw?_inv hrp
+                        simp only [hrp, Option.bind_some, Option.pure_def, Option.some.injEq, Prod.mk.injEq,
+                          Decl.record.injEq] at h
+                        obtain ⟨⟨rfl, rfl, rfl, -, rfl, rfl, -⟩, rfl⟩ := h
+                        obtain ⟨q, hq, hqk, _⟩ := derivingList_sound _ _ _ _ hdl
+                        refine ⟨rfl, nt, eq, k, tg, lb, ts4, rb, dk :: lp :: (q ++ [rp]), hts, hn, heq, hkk, htg2, hlb, hrb,
+                          ?_, ?_⟩
+                        · rw [hm, hdk, hlpe, hq]; simp
+                        · simp [printDeriving, hdkk, hlpk, hrpk, hqk]
+              · simp only [Option.pure_def, Option.some.injEq, Prod.mk.injEq, Decl.record.injEq] at h
+                obtain ⟨⟨rfl, rfl, rfl, -, rfl, rfl, -⟩, rfl⟩ := h
+                exact ⟨rfl, nt, eq, k, tg, lb, ts4, rb, [], hts, hn, heq, hkk, htg2, hlb, hrb, by simpa using hm,
+                  by simp [printDeriving]⟩
+      · exfalso
+        split at h
+        · simp [Option.bind_eq_some_iff] at h
+        split at h
+        · simp [Option.bind_eq_some_iff] at h
+        · simp [firstThat, List.findSome?_eq_some_iff, Option.bind_eq_some_iff] at h
+
 /-! # Main theorems
 
 Conventions: `toks` is any token list whose kinds (`.tk`) are the printed ones — line, column and
@@ -2341,6 +2603,30 @@ theorem flags_sound (fuel : Nat) (ts : List Token) (n : String) (c : List String
     (rb :: rest) hm
   rw [h1, hts]
   simp [printFlags, printHead, h2, hc, hn, heq, hk, hlb, hrb, hpre]
+
+/-- **soundness for records** whose field types are data types (`shape?` is defined): the consumed
+    tokens are the printing of a record shape whose erasure is the shape of the returned record -/
+theorem record_sound (fuel : Nat) (ts : List Token) (n : String) (c : List String) (fl : List String) (flp : Pos)
+    (fs : List Field) (dv : Option (List (String × Pos))) (p : Pos) (rest : List Token)
+    (h : content fuel ts = some (.decl (.record n c fl flp fs dv p), rest))
+    (hd : (Decl.record n c fl flp fs dv p).shape?.isSome = true) :
+    ∃ fields : List FieldShape,
+      ts.map (·.tk) = printRecord n c fl fields (dv.map (fun l => l.map (·.1))) ++ rest.map (·.tk) ∧
+      (Decl.record n c fl flp fs dv p).shape? =
+        some (.record n c fl (fields.map FieldShape.erase) (dv.map (fun l => l.map (·.1)))) := by
+  obtain ⟨g, rfl, ht⟩ := content_decl_inv fuel ts _ rest h
+  obtain ⟨cs, h1, h2⟩ := comments_sound ts
+  obtain ⟨hc, nt, eq, k, tg, lb, body, rb, dvt, hts, hn, heq, hk, htg, hlb, hrb, hm, hdv⟩ :=
+    typeDecl_record_inv _ _ _ _ _ _ _ _ _ _ _ _ ht
+  have hfs : ∃ r, mapOpt Field.shape? fs = some r := by
+    simp only [Decl.shape?, Option.isSome_map] at hd
+    exact Option.isSome_iff_exists.mp hd
+  obtain ⟨r, hr⟩ := hfs
+  obtain ⟨pre, ss, rfl, hpre, hss⟩ := many_sound_rel g (peekKw "}") (field g) printField Field.shape? FieldShape.erase
+    (fun ts a r h hd => field_sound g ts a r h hd) g body fs (rb :: (dvt ++ rest)) hm (mapOpt_isSome_of hr)
+  refine ⟨ss, ?_, by simp [Decl.shape?, hss]⟩
+  rw [h1, hts]
+  simp [printRecord, printHead, h2, hc, hn, heq, hk, htg, hlb, hrb, hpre, hdv]
 
 /-- round trip and soundness together: on enums, parsing is the exact inverse of printing -/
 theorem enum_parse_iff_print (fuel : Nat) (toks rest : List Token) (n : String) (c : List String)
@@ -2545,6 +2831,7 @@ def exFile : FileShape :=
 #print axioms printFile_injective
 #print axioms enum_sound
 #print axioms flags_sound
+#print axioms record_sound
 #print axioms enum_parse_iff_print
 #print axioms flags_parse_iff_print
 #print axioms exIface_lex
